@@ -275,10 +275,60 @@ def translate(repo: Path) -> dict:
     rs_ifdir, rs_ifmt = rsc("S_IFDIR"), rsc("S_IFMT")
     if rs_ifmt != 0o170000:
         raise T.TranslateError("rust S_IFMT is not 0o170000 (the model writes the mask as (m / 4096) % 16)")
-    mm = re.search(r"if \(a\.0 & S_IFMT\) == S_IFDIR \{\s*b'(.)'\s*\} else \{\s*(\d+)\s*\}", rs)
-    if not mm:
-        raise T.TranslateError("rust cmp_with_suffix: terminator expression not found")
-    rs_suffix, rs_term = ord(mm.group(1)), int(mm.group(2))
+    # cmp_with_suffix: old style compares ONE virtual byte after the common prefix (`/` for a directory, 0 otherwise);
+    # new style (15beabf) compares the rest of the names chained with a suffix slice (b"/" or b"")
+    mm_old = re.search(r"if \(a\.0 & S_IFMT\) == S_IFDIR \{\s*b'(.)'\s*\} else \{\s*(\d+)\s*\}", rs)
+    mm_new = re.search(r"if \(mode & S_IFMT\) == S_IFDIR \{\s*b\"([^\"]*)\"\s*\} else \{\s*b\"([^\"]*)\"\s*\}", rs)
+    if mm_new and re.search(r"\.chain\(suffix\(a\.0\)\)\s*\.cmp\(b\.1\[len\.\.\]\.iter\(\)\.chain\(suffix\(b\.0\)\)\)", rs):
+        rs_whole = True
+        rs_dir_suffix, rs_file_suffix = mm_new.group(1).encode(), mm_new.group(2).encode()
+        if len(rs_dir_suffix) != 1:
+            raise T.TranslateError("rust cmp_with_suffix: directory suffix is not one byte")
+        rs_suffix, rs_term = rs_dir_suffix[0], 0
+    elif mm_old:
+        rs_whole = False
+        rs_suffix, rs_term = ord(mm_old.group(1)), int(mm_old.group(2))
+        rs_dir_suffix, rs_file_suffix = bytes([rs_suffix]), b""
+    else:
+        raise T.TranslateError("rust cmp_with_suffix: neither the one-byte nor the chained-suffix comparison found")
+    rs_rejects_plus = bool(re.search(r"if text\[0\] == b'\+' \{\s*return Err", rs))
+    if not re.search(r"u32::from_str_radix\(text_str\.as_str\(\), 8\)", rs):
+        raise T.TranslateError("rust parse_tree: u32::from_str_radix(_, 8) not found")
+    # Python mode token: int(mode_text, 8) (old) or `_TREE_MODE_RE.fullmatch` + upper bound (5d5709a)
+    pt_ = T.find_def(tree, "parse_tree")
+    uses_re = any(isinstance(n, ast.Call) and isinstance(n.func, ast.Attribute) and n.func.attr == "fullmatch" and
+                  isinstance(n.func.value, ast.Name) and n.func.value.id == "_TREE_MODE_RE" for n in ast.walk(pt_))
+    mode_max = None
+    if uses_re:
+        pat = None
+        for st in tree.body:
+            if isinstance(st, ast.Assign) and isinstance(st.targets[0], ast.Name) and st.targets[0].id == "_TREE_MODE_RE":
+                if isinstance(st.value, ast.Call) and st.value.args and isinstance(st.value.args[0], ast.Constant):
+                    pat = st.value.args[0].value
+        if pat != b"[0-7]+":
+            raise T.TranslateError(f"_TREE_MODE_RE is {pat!r}, the model's strict mode token is [0-7]+")
+        for n in ast.walk(pt_):
+            if isinstance(n, ast.Compare) and isinstance(n.left, ast.Name) and n.left.id == "mode" and \
+                    isinstance(n.ops[0], ast.Gt) and isinstance(n.comparators[0], ast.Constant):
+                mode_max = n.comparators[0].value
+        if mode_max is None:
+            raise T.TranslateError("parse_tree: `if mode > <max>` not found")
+    else:
+        if not any(isinstance(n, ast.Call) and isinstance(n.func, ast.Name) and n.func.id == "int" and len(n.args) == 2
+                   for n in ast.walk(pt_)):
+            raise T.TranslateError("parse_tree: neither _TREE_MODE_RE.fullmatch nor int(mode_text, 8) found")
+        mode_max = 0xFFFFFFFF
+    if mode_max != 0xFFFFFFFF:
+        raise T.TranslateError(f"parse_tree: mode bound {mode_max:#x} (Rust parses into u32)")
+    sti = T.find_def(tree, "sorted_tree_items")
+    sort_checks = False
+    for n in ast.walk(sti):
+        if isinstance(n, ast.Compare) and len(n.ops) == 2 and isinstance(n.comparators[0], ast.Name) and \
+                n.comparators[0].id == "mode" and isinstance(n.left, ast.Constant) and n.left.value == 0 and \
+                isinstance(n.comparators[1], ast.Constant):
+            if n.comparators[1].value != mode_max:
+                raise T.TranslateError("sorted_tree_items: mode bound differs from parse_tree's")
+            sort_checks = True
     # hex lengths
     hl = set()
     for fn in ("hex_to_sha", "sha_to_hex"):
@@ -355,6 +405,18 @@ def translate(repo: Path) -> dict:
     L.append(f"/-- Rust `cmp_with_suffix`: virtual terminator of a directory name / of any other name -/")
     L.append(f"def rsDirTerm : UInt8 := {rs_suffix}")
     L.append(f"def rsFileTerm : UInt8 := {rs_term}")
+    L.append("/-- Rust `cmp_with_suffix` compares the whole rest of the names chained with a suffix slice (`true`, since\n"
+             "    15beabf) or only one virtual byte after the common prefix (`false`) -/")
+    L.append(f"def rsCmpWhole : Bool := {'true' if rs_whole else 'false'}")
+    L.append(f"def rsDirSuffix : List UInt8 := {_b(rs_dir_suffix)}")
+    L.append(f"def rsFileSuffix : List UInt8 := {_b(rs_file_suffix)}")
+    L.append("/-- mode token of `parse_tree`: Python requires `[0-7]+` and a value ≤ treeModeMax (`true`, since 5d5709a) or\n"
+             "    takes `int(token, 8)` (`false`); Rust rejects a leading `+` before `u32::from_str_radix` (`true`) or not -/")
+    L.append(f"def pyModeStrict : Bool := {'true' if uses_re else 'false'}")
+    L.append(f"def rsRejectsPlus : Bool := {'true' if rs_rejects_plus else 'false'}")
+    L.append(f"def treeModeMax : Nat := {mode_max}")
+    L.append("/-- pure-Python `sorted_tree_items` raises TypeError for a mode outside 0..treeModeMax (since 46c4930) -/")
+    L.append(f"def pySortChecksMode : Bool := {'true' if sort_checks else 'false'}")
     L.append("/-- accepted lengths in `hex_to_sha` / `sha_to_hex` -/")
     L.append(f"def hexLens : List Nat := {hexlens}")
     L.append("/-- `format_timezone`: `offset % A != 0`, `offset / B`, `(offset / C) % D` -/")
@@ -1142,12 +1204,17 @@ def _entries_tokens(es):
     return [(hx(n), m, hx(h)) for n, m, h in es]
 
 
+def _legal_entries(es) -> bool:
+    """entries git accepts: a legal mode, a non-empty name without `/` and NUL"""
+    return all(m in MODES for _, m, _ in es) and all(nme and b"/" not in nme and b"\0" not in nme for nme, _, _ in es)
+
+
 def _oracle_tree(ctx, case, es, rr, stream=None):
     """direct oracle (property words) on a worker's round-trip report: git order and spelling, lossless parse,
     id = hash, stable re-serialisation."""
     import functools
     raw = unhx(rr["raw"])
-    legal = all(m in MODES for _, m, _ in es) and all(b"/" not in nme for nme, _, _ in es)
+    legal = _legal_entries(es)
     if legal:
         want = ref_tree(es)
         if raw != want:
@@ -1181,8 +1248,13 @@ def _stream_tree(ctx, V):
         algo = "sha256" if rng.random() < 0.25 else "sha1"
         cases.append((algo, gen_tree_entries(rng, algo)))
     # odd-but-serialisable modes for the model tie (not part of git's grammar)
-    for m in (0, 1, 0o777, 0o7777, 0o4000, 0o140000, 2 ** 31, 2 ** 32 - 1):
+    for m in (0, 1, 0o777, 0o7777, 0o4000, 0o140000, 2 ** 31, 2 ** 32 - 1, 2 ** 32, 2 ** 40, -1):
         cases.append(("sha1", [(b"m", m, h1), (b"m2", 0o100644, h1)]))
+    # names with `/` and NUL: not legal in git, but the two sorts must still agree with the model (and each other)
+    odd = [b"a", b"a/", b"a/b", b"a/c", b"a\0", b"a\0b", b"a//", b"a/\0", b"ab", b"a."]
+    for _ in range(ctx.budget(60)):
+        rng.shuffle(odd)
+        cases.append(("sha1", [(x, rng.choice([0o100644, 0o040000, 0o160000]), h1) for x in odd[: rng.randint(2, 7)]]))
     for variant in V.workers:
         tag = "rs" if variant == "rs" else "py"
         sort_m = ctx.driver.batch([f"c01.tree.sort {tag} {lst(ent(*e) for e in es)}" for _, es in cases])
@@ -1190,7 +1262,9 @@ def _stream_tree(ctx, V):
         reqs = []
         for algo, es in cases:
             reqs.append(("sort", {"entries": _entries_tokens(es)}))
-            reqs.append(("roundtrip", {"entries": _entries_tokens(es), "sha_len": 20 if algo == "sha1" else 32}))
+            # a name with NUL cannot be parsed back: only the serialisation is compared for those
+            reqs.append(("roundtrip" if all(b"\0" not in nme for nme, _, _ in es) else "ser",
+                         {"entries": _entries_tokens(es), "sha_len": 20 if algo == "sha1" else 32}))
         reps = V.batch(variant, reqs)
         for i, (algo, es) in enumerate(cases):
             rs, rr = reps[2 * i], reps[2 * i + 1]
@@ -1202,7 +1276,7 @@ def _stream_tree(ctx, V):
             _cmp(ctx, "tree.sort", case, sort_m[i], rs, variant)
             if isinstance(rr, str):
                 _cmp(ctx, "tree.ser", case, ser_m[i], rr, variant)
-                if all(m in MODES for _, m, _ in es) and all(b"/" not in nme for nme, _, _ in es):
+                if _legal_entries(es):
                     ctx.oracle_fail("tree.roundtrip", case, f"a tree of legal entries cannot be serialised and parsed back: {rr}", None)
                 continue
             _cmp(ctx, "tree.ser", case, ser_m[i], "ok " + rr["raw"], variant)
@@ -1212,7 +1286,7 @@ def _stream_tree(ctx, V):
     # ---- parse: canonical bytes (reference-serialised) and mutations, both variants, model vs real
     raws = []
     for algo, es in cases[-n:]:
-        legal = all(m in MODES for _, m, _ in es) and all(b"/" not in nme for nme, _, _ in es)
+        legal = _legal_entries(es)
         if legal:
             raws.append((20 if algo == "sha1" else 32, ref_tree(es)))
     raws += [(20, b""), (20, b"100644 a\0" + b"\1" * 19), (20, b"100644 a\0" + b"\1" * 21), (20, b"100644a\0" + b"\1" * 20),
